@@ -327,6 +327,14 @@ def build_series(col):
                                   dtype='string'))
     if kind in DT_KINDS:
         unit = kind[4:]
+        if unit == 'ns' and any(isinstance(c, str) and len(c) > 26
+                                for c in col['cells']):
+            # instants given to the nanosecond (ticks of a counter): more
+            # digits than a Python datetime holds
+            arr = np.array([np.datetime64('NaT') if c is None
+                            else np.datetime64(c) for c in col['cells']],
+                           dtype='datetime64[ns]')
+            return pd.Series(arr)
         arr = np.array([np.datetime64('NaT') if v is None
                         else np.datetime64(v.isoformat()) for v in vals],
                        dtype='datetime64[%s]' % unit)
